@@ -42,7 +42,7 @@ func (o StoreOp) String() string {
 	return o.Op
 }
 
-var storeKeys = []string{"", "a", "é", "🙂", "a\x00", strings.Repeat("long", 40), "b", "k"}
+var storeKeys = []string{"", "a", "é", "🙂", "a\x00", strings.Repeat("long", 40), "b", "k", "a.x", "a.", ".x"}
 
 type sPair struct {
 	A int
@@ -53,7 +53,11 @@ type sPair struct {
 func storePalette() []any {
 	p := &Tok{Tag: "p"}
 	m := map[string]any{"x": 1}
-	return []any{nil, 0, 1, -7, "s", "", true, math.NaN(), 3.5, m, []any{1, "two"}, []int{1, 2}, sPair{A: 1, B: []int{2}}, p, (*Tok)(nil), map[string]int(nil), int64(1) << 40, uint8(200), func() {}}
+	// m/m2, the two []any and the two []int are deep-equal but distinct objects: overwriting one
+	// with the other must really store the other (identity is observable by later mutation)
+	m2 := map[string]any{"x": 1}
+	return []any{nil, 0, 1, -7, "s", "", true, math.NaN(), 3.5, m, []any{1, "two"}, []int{1, 2}, sPair{A: 1, B: []int{2}}, p, (*Tok)(nil), map[string]int(nil), int64(1) << 40, uint8(200), func() {},
+		m2, []any{1, "two"}, []int{1, 2}, 0.0, math.Copysign(0, -1), &Tok{Tag: "p"}, map[string]any{"x": map[string]any{"y": 2}}}
 }
 
 // sameValue: identity for reference kinds, NaN-aware equality for floats, DeepEqual otherwise.
@@ -68,7 +72,7 @@ func sameValue(a, b any) bool {
 	switch va.Kind() {
 	case reflect.Float32, reflect.Float64:
 		x, y := va.Float(), vb.Float()
-		return x == y || (math.IsNaN(x) && math.IsNaN(y))
+		return (x == y && math.Signbit(x) == math.Signbit(y)) || (math.IsNaN(x) && math.IsNaN(y))
 	case reflect.Ptr, reflect.Map, reflect.Chan, reflect.Func, reflect.UnsafePointer:
 		return va.Pointer() == vb.Pointer()
 	case reflect.Slice:
